@@ -463,6 +463,9 @@ func (r *Runner) buildTx(tx M) (bz []byte, nmsgs int, viaExec bool, early *TxRes
 	if str(tx, "mode") == "amino" {
 		mode = signing.SignMode_SIGN_MODE_LEGACY_AMINO_JSON
 	}
+	if tp := str(tx, "tip"); tp != "" && tp != "none" {
+		c.nextTip = c.bech(tp)
+	}
 	fee2 := sdk.NewCoin(denom2, c.Unit2.MulRaw(int64(num(tx, "fee2")))) // optional second fee coin (absent field = 0)
 	bz, err = c.BuildTx(wrapped, required, keys, num(tx, "fee")*feeUnit, mode, fee2)
 	if err != nil {
